@@ -441,7 +441,11 @@ func BatchFunc[T any](
 				out.err = err
 				return
 			}
-			c <- item
+			select {
+			case c <- item:
+			case <-bgCtx.Done():
+				return
+			}
 		}
 	}()
 
